@@ -30,6 +30,9 @@ pub struct InstCfg {
     /// constraints of the form 1e-6 * x (value exactly on the feasibility tolerance at x = +-1); only for
     /// evaluation-type properties, because the coefficient is not dyadic
     pub tolerance_candidates: bool,
+    /// now and then 12..70 additional variables the problem does not use, at derived positions of the variable list
+    /// (instances with "many variables per touched variable"; implementations may switch algorithm with the ratio)
+    pub crowd: bool,
 }
 
 impl InstCfg {
@@ -56,6 +59,7 @@ impl InstCfg {
             hints: false,
             sense_any: true,
             tolerance_candidates: false,
+            crowd: false,
         }
     }
 }
@@ -247,6 +251,34 @@ pub fn gen_instance(t: &mut Tape, cfg: &InstCfg, ctx: &mut Ctx) -> GI {
             ctx.label("fixed-variable");
         }
         inst.decision_variables.push(v);
+    }
+    if cfg.crowd && cfg.allow_irrelevant && t.p(20) {
+        // a crowd of further unused variables; ids and positions derived from one seed byte
+        let m = *t.pick(&[12usize, 17, 31, 40, 70]);
+        let seed = t.byte() as u64;
+        let taken: BTreeSet<u64> = ids.iter().copied().collect();
+        let base = *t.pick(&[0u64, 100, 5000]);
+        let mut extra: Vec<v1::DecisionVariable> = vec![];
+        for k in 0..m as u64 {
+            let id = base + 2 * k + (derived_coeff(seed, k) > 0.0) as u64;
+            if taken.contains(&id) {
+                continue;
+            }
+            let mut v = v1::DecisionVariable::default();
+            v.id = id;
+            v.kind = if derived_coeff(seed ^ 3, k) > 0.0 { KIND_CONTINUOUS } else { KIND_INTEGER };
+            if derived_coeff(seed ^ 5, k) > 0.0 {
+                v.bound = Some(mk::bound(-3.0, 5.0));
+            }
+            irrelevant.push(id);
+            extra.push(v);
+        }
+        inst.decision_variables.extend(extra);
+        // derived permutation of the whole list
+        let mut keyed: Vec<(u64, v1::DecisionVariable)> = inst.decision_variables.drain(..).enumerate().map(|(i, v)| ((derived_coeff(seed ^ 9, i as u64) * 16.0 + 64.0) as u64 * 1000 + i as u64, v)).collect();
+        keyed.sort_by_key(|x| x.0);
+        inst.decision_variables = keyed.into_iter().map(|x| x.1).collect();
+        ctx.label("crowd-of-unused-variables");
     }
     if !irrelevant.is_empty() {
         ctx.label("irrelevant-variable");
